@@ -70,7 +70,7 @@ let () =
   let opcount = Hashtbl.create 64 and extra = Hashtbl.create 64 in
   let bump t k = Hashtbl.replace t k (1 + try Hashtbl.find t k with Not_found -> 0) in
   let dead = ref false and spec_dead = ref false and disc_dead = ref false in
-  let ospec = ref ospec0 and pend_before = ref [] in
+  let ospec = ref ospec0 and pend_before = ref [] and srv_seen = ref [] in
   let printed = Hashtbl.create 64 in
   let report sg text =
     let n = try Hashtbl.find printed sg with Not_found -> 0 in
@@ -90,7 +90,7 @@ let () =
       match toks with
       | "C" :: _variant :: kvs ->
         flush_case (); incr case_no; op_no := 0; dead := false; spec_dead := false; disc_dead := false;
-        ospec := ospec0; pend_before := [];
+        ospec := ospec0; pend_before := []; srv_seen := [];
         let kv k = let p = k ^ "=" in
           let e = List.find (fun s -> String.length s > String.length p && String.sub s 0 (String.length p) = p) kvs in
           int_of_string (String.sub e (String.length p) (String.length e - String.length p)) in
@@ -157,6 +157,17 @@ let () =
                   if pend < 0 || not ok then
                     bad (if pend <> int_of_string h then "routing" else "order") (Printf.sprintf "response-of-request-%d-in-send-order-at-most-once" pend)
                 | _ -> bad "format" "r<hid>.<slot>.<seq>")
+             | (Q _ | Qd _ | S_) when String.length impl_obs > 2 && String.sub impl_obs 0 2 = "ok" ->
+               (* cheap structural clause: a request has at most max_servers recipients *)
+               (match int_of_string_opt (String.sub impl_obs 2 (String.length impl_obs - 2)) with
+                | Some n when n > int_of_n c.mS -> bad "recipients" (Printf.sprintf "at-most-%d-recipients" (int_of_n c.mS))
+                | _ -> ())
+             | Sr j when String.length impl_obs > 1 && impl_obs.[0] = 'a' ->
+               (* a request is handed out at most once per server *)
+               let h = List.hd (String.split_on_char ':' (String.sub impl_obs 1 (String.length impl_obs - 1))) in
+               let key = (int_of_n j, h) in
+               if List.mem key !srv_seen then bad "request_twice" "each-request-received-at-most-once-per-server"
+               else srv_seen := key :: !srv_seen
              | _ -> ());
             let (pend, act) = parse_digest impl in
             if not !spec_dead then
